@@ -51,7 +51,9 @@ def scenario_strategy(opts):
         old = prog
         for _ in range(draw(st.integers(1, 2))):
             old = M.apply_edit(old, draw(G.edits(old, root, kinds=["setvar", "bump", "setlit", "bump"], opts=opts)))
-        return {"prog": prog, "old": old, "root": root, "style": style, "start": start, "cache": draw(st.sampled_from([None, None, 2]))}
+        third = M.apply_edit(prog, draw(G.edits(prog, root, kinds=["setvar", "bump", "setlit", "bump"], opts=opts)))
+        return {"prog": prog, "old": old, "root": root, "style": style, "start": start, "cache": draw(st.sampled_from([None, None, 2])),
+                "same_pid": draw(st.integers(0, 2)) == 0, "third": third}
 
     return gen()
 
@@ -66,7 +68,21 @@ def write_prog(root_dir, prog):
             f.write(content)
 
 
-def process_fn(root_dir, store_dir, prog, root, style, cache, evals=1, loads=(), data="data"):
+class FixedPid(object):
+    """`os` as seen by dds.store, with a constant getpid(): every simulated process re-uses the pid of the previous
+    one (the worst case for names derived from the pid)"""
+
+    def __init__(self, inner, pid):
+        self._inner, self._pid = inner, pid
+
+    def getpid(self):
+        return self._pid
+
+    def __getattr__(self, name):
+        return getattr(self._inner, name)
+
+
+def process_fn(root_dir, store_dir, prog, root, style, cache, evals=1, loads=(), data="data", fixed_pid=None):
     """the body of one simulated dds process: open the local store, evaluate `evals` times, load some paths"""
     f = prog["funcs"][root]
     modname, fname = M.modname(prog, f["mod"]), f["name"]
@@ -82,6 +98,10 @@ def process_fn(root_dir, store_dir, prog, root, style, cache, evals=1, loads=(),
         import vlog
 
         dds.accept_module(pkg)
+        if fixed_pid:
+            import dds.store as _dstore
+
+            _dstore.os = FixedPid(_dstore.os, fixed_pid)
         dds.set_store("local", internal_dir=os.path.join(store_dir, "internal"), data_dir=os.path.join(store_dir, data), cache_objects=cache)
         out = {"evals": [], "loads": {}}
         for p in loads:
@@ -94,6 +114,13 @@ def process_fn(root_dir, store_dir, prog, root, style, cache, evals=1, loads=(),
             vlog.take()
             val = dds.eval(fun) if style == "eval" else fun()
             out["evals"].append((val, vlog.take()))
+            if "loads_first" not in out:
+                out["loads_first"] = {}
+                for p in loads:
+                    try:
+                        out["loads_first"][p] = ("ok", dds.load(p))
+                    except BaseException as e:  # noqa
+                        out["loads_first"][p] = ("exc", f"{type(e).__name__}: {e}"[:300])
         out["loads_after"] = {}
         for p in loads:
             try:
@@ -147,6 +174,8 @@ def check_scenario(sc, ev=None, scratch=None, only_k=None):
         template = os.path.join(base, "template")
         live = os.path.join(base, "live")   # always the same name: absolute link targets stay valid
         prog, root, style, cache = sc["prog"], sc["root"], sc["style"], sc["cache"]
+        pid = 4242 if sc.get("same_pid") else None
+        root_third = os.path.join(base, "src_third")
         write_prog(root_new, prog)
         exp_new, it_new = M.expected_value(prog, root)
         pre = {}
@@ -156,7 +185,7 @@ def check_scenario(sc, ev=None, scratch=None, only_k=None):
         if sc["start"] in ("old_version", "same_version", "other_view"):
             p0 = sc["old"] if sc["start"] in ("old_version", "other_view") else prog
             write_prog(root_old, p0)
-            r = sched.run_plain(process_fn(root_old, live, p0, root, style, cache))
+            r = sched.run_plain(process_fn(root_old, live, p0, root, style, cache, fixed_pid=pid))
             if r[0] != "ok":
                 raise Violation(f"{what}: populating the store raised {r[1]}", sc)
             _, it_old = M.expected_value(p0, root)
@@ -167,7 +196,13 @@ def check_scenario(sc, ev=None, scratch=None, only_k=None):
             os.makedirs(os.path.join(live, "data"))
         copy_store(live, template)
         all_paths = sorted(set(pre) | set(it_new.kept))
-        victim = process_fn(root_new, live, prog, root, style, cache, data=vdata)
+        victim = process_fn(root_new, live, prog, root, style, cache, data=vdata, fixed_pid=pid)
+        # with a re-used pid the process that comes after the crash runs a further edited version of the code
+        rec_prog, rec_root_dir = prog, root_new
+        if pid and sc.get("third"):
+            rec_prog, rec_root_dir = sc["third"], root_third
+            write_prog(root_third, rec_prog)
+        exp_rec, it_rec = M.expected_value(rec_prog, root)
         # ---- dry run under the proxy (no kill): trace + result + agreement with an un-proxied run
         copy_store(template, live)
         dry = sched.run([victim])
@@ -193,7 +228,7 @@ def check_scenario(sc, ev=None, scratch=None, only_k=None):
                 raise common.HarnessError(f"victim finished before boundary {k} (trace is not deterministic): {run['trace'][-3:]}")
             at = f"{what}: victim killed before operation #{k} {trace[k]} (after {trace[k - 1]})"
             # observer: paths committed before the crash
-            obs = sched.run_plain(process_fn(root_new, live, prog, root, style, cache, evals=0, loads=sorted(pre), data=vdata))
+            obs = sched.run_plain(process_fn(root_new, live, prog, root, style, cache, evals=0, loads=sorted(pre), data=vdata, fixed_pid=pid))
             if obs[0] != "ok":
                 raise Violation(f"{at}: opening the store afterwards raised {obs[1]['type']}: {obs[1]['msg'][:200]}", dict(sc, k=k))
             for p, (st, v) in obs[1]["loads"].items():
@@ -203,27 +238,31 @@ def check_scenario(sc, ev=None, scratch=None, only_k=None):
                 if v != pre[p] and v != new_v:
                     raise Violation(f"{at}: the path {p} loads {v!r}, neither its old value {pre[p]!r} nor its new value {new_v!r}", dict(sc, k=k))
             # recovery: evaluate twice, load everything
-            rec = sched.run_plain(process_fn(root_new, live, prog, root, style, cache, evals=2, loads=all_paths if vdata == "data" else sorted(it_new.kept), data=vdata))
+            rec_paths = sorted(set(all_paths if vdata == "data" else it_new.kept) | set(it_rec.kept))
+            rec = sched.run_plain(process_fn(rec_root_dir, live, rec_prog, root, style, cache, evals=2, loads=rec_paths, data=vdata, fixed_pid=pid))
             if rec[0] != "ok":
                 raise Violation(f"{at}: the next process evaluating the pipeline raised {rec[1]['type']}: {rec[1]['msg'][:300]}", dict(sc, k=k))
             (v1, log1), (v2, log2) = rec[1]["evals"]
-            if v1 != exp_new:
-                raise Violation(f"{at}: the next process evaluating the pipeline got {v1!r}, expected {exp_new!r}", dict(sc, k=k))
-            if v2 != exp_new:
-                raise Violation(f"{at}: the second evaluation after recovery got {v2!r}, expected {exp_new!r}", dict(sc, k=k))
-            idle = set(M.sim_log(prog, root, lambda p: False))
+            if v1 != exp_rec:
+                raise Violation(f"{at}: the next process evaluating the pipeline got {v1!r}, expected {exp_rec!r}", dict(sc, k=k))
+            if v2 != exp_rec:
+                raise Violation(f"{at}: the second evaluation after recovery got {v2!r}, expected {exp_rec!r}", dict(sc, k=k))
+            idle = set(M.sim_log(rec_prog, root, lambda p: False))
             ran = [x for x in log2 if x not in idle]
             if ran:
                 raise Violation(f"{at}: the second evaluation after recovery re-executed {sorted(set(ran))}", dict(sc, k=k))
-            for p, (st, v) in rec[1]["loads_after"].items():
-                want = it_new.kept.get(p, pre.get(p))
-                if st != "ok" or v != want:
-                    raise Violation(f"{at}: after recovery the path {p} loads {v!r} ({st}), expected {want!r}", dict(sc, k=k))
+            for when in ("loads_first", "loads_after"):
+                for p, (st, v) in rec[1][when].items():
+                    want = it_rec.kept.get(p, it_new.kept.get(p, pre.get(p)))
+                    if p not in it_rec.kept and p in it_new.kept and st == "ok" and v in (it_new.kept[p], pre.get(p)):
+                        continue   # kept by the victim only: its old or its new value, depending on where the victim died
+                    if st != "ok" or v != want:
+                        raise Violation(f"{at}: after recovery ({'first' if when == 'loads_first' else 'second'} evaluation) the path {p} loads {v!r} ({st}), expected {want!r}", dict(sc, k=k))
             if ev is not None:
                 ev.case({"start": sc["start"], "cache": cache, "boundary": k, "op": list(trace[k]), "of": n,
                          "program": c01.slim({"prog": prog, "store": None, "steps": []})["program"] if len(ev.samples) < 3 else "(omitted)"},
                         first_mut < k <= last_mut, features=["start:" + sc["start"], "killed-before:" + trace[k][0].split(".")[0].split(":")[0]]
-                        + (["cache"] if cache else []), key=[M.pkey(prog), sc["start"], cache, style, k])
+                        + (["cache"] if cache else []) + (["pid-reused+further-edit"] if pid else []), key=[M.pkey(prog), sc["start"], cache, style, k, bool(pid)])
         if ev is not None:
             ev.extra["scenarios"] = ev.extra.get("scenarios", 0) + 1
             ev.extra["boundaries"] = ev.extra.get("boundaries", 0) + n
